@@ -88,10 +88,13 @@ def main():
     L, shapes, results = run_family(ck, 'C10', extra)
     kernels(ck)
     parser_totality(ck)
+    import chainlib; chainlib.certificate(ck)
     ck.assume("the property ranges over byte strings of kilobytes; decided here: (1) totality of layout+emission on the C05 shape set plus undefined/duplicate/keyword-like labels and invalid OPR operands, all immediates symbolic; "
               "(2) totality of Parser::parseDirective on every token sequence (lexer cut to an arbitrary token source, numbers symbolic); (3) arithmetic kernels on their whole argument range (instrLen: offsets < 2^30)",
               "the character-level lexer and the interaction of lexer state across many tokens are outside this claim; strings longer than the bounds are outside",
               "every run must end in 'emitted' or 'threw an exception derived from std::exception' before any output was written; null/out-of-bounds access, unreachable, abort, UB or the step budget are violations",
+              "'never loops forever in layout': every explored path reaches the fixed point within the step budget, and the grow-only certificate of C05 (a reference started from an arbitrary encoded length never ends shorter, "
+              "for every gap size) is decided again here; a failing certificate is INCONCLUSIVE, a concrete non-terminating program is a violation",
               "stubs and budgets as in C05")
     ck.crosscheck()
     ck.finish("Bounded totality of the assembler's stages decided by symbolic execution: every explored path of CodeGen/emitBin on the shape set, of parseDirective on all token sequences "
